@@ -23,6 +23,17 @@ pub fn gen_mode_graph_case(d: &mut Dec, thorough: bool, lookaheads: usize) -> Ca
         min_modes: if d.chance(192) { 2 } else { 1 },
         ..p
     };
+    if d.chance(1) {
+        // more than 256 modes
+        let modes = gen::gen_many_modes(d);
+        let mut case = Case {
+            modes,
+            ..Case::default()
+        };
+        let model = case.model();
+        case.inputs.push(gen::gen_long_input(d, &model, 30, 120));
+        return case;
+    }
     let mut modes = gen::gen_modes(d, &p);
     let large = d.chance(p.large_per_256);
     if large {
